@@ -10,6 +10,7 @@ import FianoModel.Uefi.Spec
 import FianoModel.Gen.Uefi
 import FianoModel.Gen.UefiAsm
 import FianoModel.Gen.UefiCodec
+import FianoModel.Gen.ArithUefi
 
 namespace Fiano.Uefi.Tie
 open Fiano Fiano.Uefi
@@ -103,5 +104,25 @@ theorem tie_headerPatches : Gen.UefiAsm.putsites_Assemble_Visit = [(64, 32), (32
 theorem tie_asmBoundaries :
     Gen.UefiAsm.cmplits_Assemble_Visit.filter (·.2 = 0xFFFFFF) = [(">", 0xFFFFFF), (">", 0xFFFFFF), (">", 0xFFFFFF)] ∧
     Gen.UefiAsm.cmplits_Assemble_Visit.filter (·.2 = 8) = [(">=", 8)] := by decide
+
+/-! ### arithmetic: the model's `alignGo` IS `uefi.Align` as translated from the Go source
+    (translator kind `exprfn`, Gen/ArithUefi.lean), for all 64-bit arguments, wrap-around included -/
+theorem tie_alignGo (v b : UInt64) : (Gen.ArithUefi.fn_Align v b).toNat = alignGo v.toNat b.toNat := by
+  unfold Gen.ArithUefi.fn_Align alignGo
+  rw [UInt64.toNat_and, UInt64.toNat_not, UInt64.toNat_sub, UInt64.toNat_sub, UInt64.toNat_add]
+  simp only [UInt64.toNat_one, UInt64.size]
+  have hv := v.toNat_lt
+  have hb := b.toNat_lt
+  have e1 : (18446744073709551616 - 1 + (v.toNat + b.toNat) % 18446744073709551616) % 18446744073709551616 =
+      (v.toNat + b.toNat + 18446744073709551615) % 18446744073709551616 := by omega
+  have e2 : 18446744073709551616 - 1 - (18446744073709551616 - 1 + b.toNat) % 18446744073709551616 =
+      (18446744073709551616 - b.toNat) % 18446744073709551616 := by omega
+  rw [e1, e2]
+
+theorem tie_align8 (v : UInt64) : (Gen.ArithUefi.fn_Align8 v).toNat = align8 v.toNat := by
+  unfold Gen.ArithUefi.fn_Align8 align8; exact tie_alignGo v 8
+
+theorem tie_align4 (v : UInt64) : (Gen.ArithUefi.fn_Align4 v).toNat = align4 v.toNat := by
+  unfold Gen.ArithUefi.fn_Align4 align4; exact tie_alignGo v 4
 
 end Fiano.Uefi.Tie
